@@ -10,7 +10,7 @@ import (
 // attribute menu of the seeded generator: id -> arity (names via project.AttrName)
 var attrMenu = []DAttr{
 	{Ar: 3, Id: 1}, {Ar: 3, Id: 2}, {Ar: 3, Id: 3}, {Ar: 2, Id: 4}, {Ar: 4, Id: 7}, {Ar: 4, Id: 8},
-	{Ar: 3, Id: 9}, {Ar: 4, Id: 10}, {Ar: 3, Id: 13}, {Ar: 2, Id: 14},
+	{Ar: 3, Id: 9}, {Ar: 4, Id: 10}, {Ar: 3, Id: 13}, {Ar: 2, Id: 14}, {Ar: 1, Id: 6},
 }
 
 func randTrs(r *rand.Rand, dv int, all bool) DTrs {
@@ -111,7 +111,13 @@ func randScene(r *rand.Rand, maxv int) Desc {
 			d.Texs = append(d.Texs, d.Texs[r.Intn(i)]) // equal-by-value duplicate under a new pointer
 			continue
 		}
-		d.Texs = append(d.Texs, DTex{Uri: 1 + r.Intn(3), Samp: r.Intn(4), Xf: r.Intn(8) / 2 % 4 * (r.Intn(2))})
+		if i > 0 && r.Intn(3) == 0 { // same image and sampler value, another texture transform
+			t := d.Texs[r.Intn(i)]
+			t.Xf = (t.Xf + 1 + r.Intn(3)) % 4
+			d.Texs = append(d.Texs, t)
+			continue
+		}
+		d.Texs = append(d.Texs, DTex{Uri: 1 + r.Intn(3), Samp: r.Intn(4), Xf: r.Intn(4) * r.Intn(2)})
 	}
 	nmat := r.Intn(5)
 	for i := 0; i < nmat; i++ {
@@ -122,7 +128,15 @@ func randScene(r *rand.Rand, maxv int) Desc {
 		if i > 0 && r.Intn(3) == 0 { // near duplicate: one member differs
 			m := d.Mats[r.Intn(i)]
 			m.Exts = append([]DExt{}, m.Exts...)
-			switch r.Intn(6) {
+			switch r.Intn(8) {
+			case 6:
+				if ntex > 0 {
+					m.Pbr, m.BTex = 1, 1+r.Intn(ntex)
+				}
+			case 7:
+				if ntex > 0 && len(m.Exts) > 0 {
+					m.Exts[0].Tex = 1 + r.Intn(ntex)
+				}
 			case 0:
 				if ntex > 0 {
 					m.NTex = 1 + r.Intn(ntex)
